@@ -131,6 +131,42 @@ def vjoin(a, b):
     return ("top",)
 
 
+def bite(c, x, y):
+    """bit expressing `if c { x } else { y }` for a symbolic bit c"""
+    if x == y:
+        return x
+    if x == 1 and y == 0:
+        return c
+    if x == 0 and y == 1:
+        return bnot(c)
+    if x == c and y == 0:
+        return c
+    if x == 1 and y == c:
+        return c
+    return TOP
+
+
+def vite(c, a, b):
+    """value expressing `if c { a } else { b }`: bitwise where both sides have the same shape, else the join"""
+    if a is None or b is None or a == b:
+        return vjoin(a, b)
+    if a[0] != b[0]:
+        return ("top",)
+    k = a[0]
+    if k == "bv" and a[1] == b[1]:
+        return bv(a[1], [bite(c, x, y) for x, y in zip(a[2], b[2])])
+    if k == "bool":
+        return ("bool", bite(c, a[1], b[1]))
+    if k == "opt":
+        pay = vite(c, a[2], b[2]) if (a[2] is not None and b[2] is not None) else (a[2] if b[2] is None else b[2])
+        return ("opt", bite(c, a[1], b[1]), pay)
+    if k == "struct" and set(a[1]) == set(b[1]):
+        return ("struct", {f: vite(c, a[1][f], b[1][f]) for f in a[1]})
+    if k == "tuple" and len(a[1]) == len(b[1]):
+        return ("tuple", tuple(vite(c, x, y) for x, y in zip(a[1], b[1])))
+    return vjoin(a, b)
+
+
 def is_zero(v):
     """decide v == 0 for a bit-vector: True / False / None (unknown)"""
     if v[0] != "bv":
@@ -475,12 +511,13 @@ class Interp:
             raise Unsupported("loop in " + body.path)
         n = len(body.blocks)
         order = self._rpo(cfg)
-        ins = {0: {"L": {i + 1: a for i, a in enumerate(args)}, "H": dict(heap)}}
+        ins = {0: {"L": {i + 1: a for i, a in enumerate(args)}, "H": dict(heap), "C": ()}}
         ret_val, ret_heap, any_ret = None, None, False
         for bi in order:
             if bi not in ins:
                 continue
             st = {"L": dict(ins[bi]["L"]), "H": dict(ins[bi]["H"])}
+            pc = ins[bi].get("C", ())
             blk = body.blocks[bi]
             for s in blk["s"]:
                 if s["k"] == "assign":
@@ -488,6 +525,7 @@ class Interp:
             t = blk["t"]
             k = t["k"]
             succs = []
+            lit = {}
             if k == "goto":
                 succs = [t["t"]]
             elif k == "return":
@@ -497,6 +535,10 @@ class Interp:
             elif k == "switch":
                 v = self.operand(st, t["op"])
                 succs = self._switch(v, t)
+                # a branch on a symbolic bit: remember on which side of it each successor lies, so that the two sides can be
+                # merged as `if c { a } else { b }` instead of being joined to "unknown"
+                if v[0] == "bool" and isinstance(v[1], tuple) and len(t["vals"]) == 1 and t["vals"][0][0] == 0 and t["vals"][0][1] != t["otherwise"]:
+                    lit = {t["vals"][0][1]: (v[1], 0), t["otherwise"]: (v[1], 1)}
             elif k == "assert":
                 succs = [t["t"]]
             elif k == "drop":
@@ -507,11 +549,26 @@ class Interp:
                     self.store(st, self.resolve(st, t["dest"]), r)
                     succs = [t["t"]]
             for su in succs:
+                npc = pc + ((lit[su],) if su in lit else ())
                 if su in ins:
-                    ins[su] = {"L": {l: vjoin(ins[su]["L"].get(l), st["L"].get(l)) for l in set(ins[su]["L"]) | set(st["L"])},
-                               "H": {h: vjoin(ins[su]["H"].get(h), st["H"].get(h)) for h in set(ins[su]["H"]) | set(st["H"])}}
+                    old = ins[su]
+                    opc = old.get("C", ())
+                    if opc and npc and opc[:-1] == npc[:-1] and opc[-1][0] == npc[-1][0] and opc[-1][1] != npc[-1][1]:
+                        # the two sides of one symbolic test meet again
+                        c = npc[-1][0]
+                        hi, lo = (st, old) if npc[-1][1] == 1 else (old, st)
+                        ins[su] = {"L": {l: vite(c, hi["L"].get(l), lo["L"].get(l)) for l in set(old["L"]) | set(st["L"])},
+                                   "H": {h: vite(c, hi["H"].get(h), lo["H"].get(h)) for h in set(old["H"]) | set(st["H"])},
+                                   "C": npc[:-1]}
+                    else:
+                        k0 = 0
+                        while k0 < len(opc) and k0 < len(npc) and opc[k0] == npc[k0]:
+                            k0 += 1
+                        ins[su] = {"L": {l: vjoin(old["L"].get(l), st["L"].get(l)) for l in set(old["L"]) | set(st["L"])},
+                                   "H": {h: vjoin(old["H"].get(h), st["H"].get(h)) for h in set(old["H"]) | set(st["H"])},
+                                   "C": npc[:k0]}
                 else:
-                    ins[su] = {"L": dict(st["L"]), "H": dict(st["H"])}
+                    ins[su] = {"L": dict(st["L"]), "H": dict(st["H"]), "C": npc}
         if not any_ret:
             return "diverge"
         heap.clear()
